@@ -371,7 +371,7 @@ def judge(bsic, fn, g, fw_ans, trx_ans):
         what.append("l1s_decode_sb returned %s, the standard gives %s" % (fw_ans, want_fw))
     if trx_bad:
         what.append("decode_sb returned %s, the standard gives %s" % (trx_ans, want_trx))
-    if fw_bad != trx_bad:
+    if fw_ans.split()[:5] != trx_ans.split():
         what.append("the two decoders disagree on the same word")
     return which, "; ".join(what)
 
